@@ -2,7 +2,7 @@
    SchemaCache / Codec (harness/cmd/run_conc), checked against the model by vm_compute. *)
 From Coq Require Import String List NArith Bool.
 From J5V.lib Require Import Corr.
-From J5V.model Require Import Conc ConcSites.
+From J5V.model Require Import Conc ConcKey ConcSites.
 Import ListNotations.
 
 Fixpoint utree_eqb (a b : utree) : bool :=
@@ -120,21 +120,28 @@ Definition view (ex : expo) (k : nat) (r : result) : result :=
   | other => other
   end.
 
-(* depth, type universe (with the exposed oneofs), calls per thread, schedule (incl. the drain), the hook
-   each scheduled thread was at after its step, the results of the completed calls *)
+(* depth, type universe (nodes = descriptors, with the exposed oneofs), the cache keys of the descriptors
+   that do not have a key of their own (two messages with one schema name: ConcKey.v), calls per thread,
+   schedule (incl. the drain), the hook each scheduled thread was at after its step, the results of the
+   completed calls *)
 Inductive c10case :=
-| C10Case (k : N) (g : graph) (ex : expo) (calls : list (list name)) (sched : list N) (trace : list N) (res : list (list obs)).
+| C10Case (k : N) (g : graph) (ex : expo) (km : keymap) (calls : list (list name)) (sched : list N) (trace : list N) (res : list (list obs)).
 
-Definition obs_ok (d : disc) (ex : expo) (k : nat) (g : graph) (n : name) (m : result) (o : obs) : bool :=
+Definition obs_ok (pol : hitpol) (d : disc) (ex : expo) (km : keymap) (k : nat) (g : graph) (n : name) (m : result) (o : obs) : bool :=
   match o with
   | ORes r _ => result_eqb (view ex k m) r
   | OCall cls solo_cls same =>
-      if result_eqb m (result_solo k g n) then
+      if result_eqb m (kresult_solo pol (key_of km) k g n) then
         N.eqb cls solo_cls &&
         match m, d with
         | RErr, Unguarded => true   (* without the lock the TEXT of a build error (the path to the failing
                                        field) depends on what other threads have registered meanwhile,
                                        which the model does not track; the class is still compared *)
+        | RErr, Guarded =>
+            (* with two descriptors under one key the TEXT of the error of a type that fails alone as well
+               ("schema name N is used by both A and B": which of the two is named first, at which field the
+               build stops) depends on which descriptor was registered first; the class is still compared *)
+            match km with [] => same | _ :: _ => true end
         | _, _ => same
         end
       else match m with
@@ -144,21 +151,21 @@ Definition obs_ok (d : disc) (ex : expo) (k : nat) (g : graph) (n : name) (m : r
            end
   end.
 
-Fixpoint obs_list_ok (d : disc) (ex : expo) (k : nat) (g : graph) (ns : list name) (ms : list result) (os : list obs) : bool :=
+Fixpoint obs_list_ok (pol : hitpol) (d : disc) (ex : expo) (km : keymap) (k : nat) (g : graph) (ns : list name) (ms : list result) (os : list obs) : bool :=
   match ms, os with
   | [], [] => true
   | m :: mr, o :: or =>
       match ns with
-      | n :: nr => obs_ok d ex k g n m o && obs_list_ok d ex k g nr mr or
+      | n :: nr => obs_ok pol d ex km k g n m o && obs_list_ok pol d ex km k g nr mr or
       | [] => false
       end
   | _, _ => false
   end.
 
-Fixpoint threads_ok (d : disc) (ex : expo) (k : nat) (g : graph) (calls : list (list name)) (ms : list (list result)) (os : list (list obs)) : bool :=
+Fixpoint threads_ok (pol : hitpol) (d : disc) (ex : expo) (km : keymap) (k : nat) (g : graph) (calls : list (list name)) (ms : list (list result)) (os : list (list obs)) : bool :=
   match calls, ms, os with
   | [], [], [] => true
-  | c :: cr, m :: mr, o :: or => obs_list_ok d ex k g c m o && threads_ok d ex k g cr mr or
+  | c :: cr, m :: mr, o :: or => obs_list_ok pol d ex km k g c m o && threads_ok pol d ex km k g cr mr or
   | _, _, _ => false
   end.
 
@@ -196,20 +203,24 @@ Fixpoint all_id_pairs (t : tid) (rs : list (tid * name * cellid)) (ms : list (li
   | _, _ => []
   end.
 
-Definition c10_check_with (d : disc) (c : c10case) : bool :=
+Definition c10_check_with (pol : hitpol) (d : disc) (c : c10case) : bool :=
   match c with
-  | C10Case k g ex calls sched trace res =>
+  | C10Case k g ex km calls sched trace res =>
+      let key := key_of km in
       let k' := N.to_nat k in
       let sch := map N.to_nat sched in
       (* the forced schedules of the harness run on a real sync.Mutex with every other
          goroutine parked: Unlock wakes the longest-waiting goroutine, which takes the lock
          and runs up to its cache.lookup hook before the harness regains control — the
          first-come-first-served hand-off policy over the machine of Conc.v *)
-      let (st, tr) := hrun_trace fifo_grant d k' g calls sch in
-      let rs := rets d k' g calls (expand fifo_grant d k' g sch (init calls)) in
-      nlist_eqb tr trace && threads_ok d ex k' g calls (results st) res &&
+      let (st, tr) := khrun_trace pol key fifo_grant d k' g calls sch in
+      let rs := krets pol key d k' g calls (kexpand pol key fifo_grant d k' g sch (init calls)) in
+      nlist_eqb tr trace && threads_ok pol d ex km k' g calls (results st) res &&
       ids_consistent (all_id_pairs 0 rs (results st) res)
   end.
 
-(* the model is evaluated under the discipline the Go source follows now *)
-Definition c10_check (c : c10case) : bool := c10_check_with code_disc c.
+(* the model is evaluated under the discipline the Go source follows now, and with the treatment of a
+   cache hit registered for another descriptor that the Go source has now; it is the keyed machine of
+   ConcKey.v, which on a universe without shared keys (km = []) is the machine of Conc.v
+   (ConcKeyProofs.krun_id) *)
+Definition c10_check (c : c10case) : bool := c10_check_with code_hitpol code_disc c.
